@@ -583,6 +583,15 @@ def get_binsize_all_bins(ctx):
         # the value returned is the common width of the non-last bins
         vals = [x for x in T.walk(r.value) if x[0] == 'call' and x[1] == G('next')]
         ctx.check(bool(vals), R, f'return#{k}.value', ctx.where(fa, r), found=r.value, expected='the single common width')
+    # the last bin of *every* chromosome takes part: the statement that folds it in runs on every
+    # iteration of the per-chromosome loop (only a 'return None' may precede it)
+    folds = [e for e in events(fa, ('assign', 'aug')) if e.loops and last_bin_terms(e.d.get('value', T.NONE))]
+    for e in folds:
+        skips = [(T.show(c), p, k) for (c, p), k in zip(e.guards, e.gkinds) if k in ('if', 'continue', 'break')]
+        ctx.check(not skips, R, 'every-chromosome', ctx.where(fa, e), found=skips,
+                  expected='last-bin width folded in for every chromosome',
+                  reason='a chromosome that is skipped (e.g. a single-bin one) can hide a too-long last bin',
+                  key=f'{R}|cooler.util.get_binsize|last-bin-skipped-for-some-chromosome')
     # all-but-last widths are collected per chromosome and more than one distinct width gives None
     ups = calls(fa, method='update')
     okc = any(any(y[0] == 'slice' and y[2] == C(-1) for y in T.walk(arg(e, 0))) and
